@@ -15,15 +15,17 @@ Notation progF := (prog order_fixed).
 
 Inductive tstate : list op -> nat -> Prop :=
 | ts_idle : forall rest, tstate (progF rest) 0
-| ts_locked : forall s rest, tstate (OSnap :: OCommit s :: OUnlock :: progF rest) 1
-| ts_snapped : forall s rest, tstate (OCommit s :: OUnlock :: progF rest) 2
-| ts_committed : forall rest, tstate (OUnlock :: progF rest) 3.
+| ts_locked : forall s rest, tstate (OSnap :: OLog s :: OPublish s :: OUnlock :: progF rest) 1
+| ts_snapped : forall s rest, tstate (OLog s :: OPublish s :: OUnlock :: progF rest) 2
+| ts_logged : forall s rest, tstate (OPublish s :: OUnlock :: progF rest) 3
+| ts_published : forall rest, tstate (OUnlock :: progF rest) 4.
 
 Definition thread_ok (c : acfg) (t : nat) : Prop :=
   exists ph, tstate (todo (threads c t)) ph /\
     (ph = 0%nat -> lock (Sched.shared c) <> Some t) /\
     (ph <> 0%nat -> lock (Sched.shared c) = Some t) /\
-    (ph = 2%nat -> loc (threads c t) = cell (Sched.shared c)).
+    (ph = 2%nat -> loc (threads c t) = cell (Sched.shared c)) /\
+    (ph = 3%nat -> forall s r, todo (threads c t) = OPublish s :: r -> loc (threads c t) = eval s (cell (Sched.shared c))).
 
 Definition Inv (v0 : Z) (c : acfg) : Prop :=
   (forall t, thread_ok c t) /\
@@ -35,7 +37,7 @@ Proof. intros; unfold seq_result; rewrite fold_left_app; reflexivity. Qed.
 Lemma init_inv : forall v0 stmts, Inv v0 (init order_fixed v0 stmts).
 Proof.
   intros v0 stmts; split; [|reflexivity].
-  intro t. exists 0%nat. cbn. repeat split; try discriminate.
+  intro t. exists 0%nat. cbn. split; [|split; [|split; [|split]]]; try discriminate.
   - change (@nil op) with (progF []). rewrite map_nth. apply ts_idle.
   - intro H; exfalso; apply H; reflexivity.
 Qed.
@@ -47,53 +49,58 @@ Lemma other_ok : forall (c c' : acfg) t u,
   (lock (Sched.shared c) = Some u -> lock (Sched.shared c') = Some u /\ cell (Sched.shared c') = cell (Sched.shared c)) ->
   thread_ok c' u.
 Proof.
-  intros c c' t u Hne Hth (ph & Hts & H0 & H1 & H2) Hfree Hheld.
-  exists ph. rewrite Hth. repeat split.
-  - exact Hts.
+  intros c c' t u Hne Hth (ph & Hts & H0 & H1 & H2 & H3) Hfree Hheld.
+  exists ph. rewrite Hth. split; [exact Hts|split; [|split; [|split]]].
   - intro E. apply Hfree, H0, E.
   - intro E. apply Hheld, H1, E.
   - intro E. rewrite (H2 E). symmetry. apply Hheld. apply H1. rewrite E; discriminate.
+  - intros E s r Htd. rewrite (H3 E s r Htd). f_equal. symmetry. apply Hheld. apply H1. rewrite E; discriminate.
 Qed.
 
 Lemma step_inv : forall v0 t c, Inv v0 c -> Inv v0 (step_thread sem t c).
 Proof.
   intros v0 t c [Hth Hcell]. unfold step_thread.
-  destruct (Hth t) as (ph & Hts & H0 & H1 & H2).
+  destruct (Hth t) as (ph & Hts & H0 & H1 & H2 & H3).
   remember (todo (threads c t)) as l eqn:El.
-  destruct Hts as [rest | s rest | s rest | rest].
+  destruct Hts as [rest | s rest | s rest | s rest | rest].
   - (* idle: next is OLock, or nothing *)
     destruct rest as [|s r]; cbn [prog group app]; [split; assumption|].
     cbn [sem]. destruct (lock (Sched.shared c)) as [h|] eqn:Elock; [split; assumption|].
     split; [|exact Hcell].
     intro u. destruct (Nat.eq_dec u t) as [->|Hne].
-    + exists 1%nat. cbn. rewrite upd_same. cbn. repeat split; try discriminate. apply ts_locked.
+    + exists 1%nat. cbn. rewrite upd_same. cbn. split; [apply ts_locked|split; [|split; [|split]]]; try discriminate. reflexivity.
     + eapply (other_ok c _ t u Hne); [cbn; apply upd_other; exact Hne | apply Hth | |].
       * cbn. intros _ E. apply Hne. inversion E. reflexivity.
       * rewrite Elock. discriminate.
   - (* locked: OSnap *)
     cbn [sem]. split; [|exact Hcell].
     intro u. destruct (Nat.eq_dec u t) as [->|Hne].
-    + exists 2%nat. cbn. rewrite upd_same. cbn. repeat split; try discriminate.
-      * apply ts_snapped.
-      * intros _. apply H1. discriminate.
+    + exists 2%nat. cbn. rewrite upd_same. cbn. split; [apply ts_snapped|split; [|split; [|split]]]; try discriminate; try reflexivity.
+      intros _. apply H1. discriminate.
     + eapply (other_ok c _ t u Hne); [cbn; apply upd_other; exact Hne | apply Hth | |]; cbn; auto.
-  - (* snapped: OCommit *)
+  - (* snapped: OLog *)
+    cbn [sem]. split; [|exact Hcell].
+    intro u. destruct (Nat.eq_dec u t) as [->|Hne].
+    + exists 3%nat. cbn. rewrite upd_same. cbn. split; [apply ts_logged|split; [|split; [|split]]]; try discriminate.
+      * intros _. apply H1. discriminate.
+      * intros _ s' r' E. inversion E. subst s' r'. rewrite (H2 eq_refl). reflexivity.
+    + eapply (other_ok c _ t u Hne); [cbn; apply upd_other; exact Hne | apply Hth | |]; cbn; auto.
+  - (* logged: OPublish *)
     cbn [sem]. assert (Hl : lock (Sched.shared c) = Some t) by (apply H1; discriminate).
+    assert (Hloc : loc (threads c t) = eval s (cell (Sched.shared c))) by (apply (H3 eq_refl s (OUnlock :: progF rest)); reflexivity).
     split.
     + intro u. destruct (Nat.eq_dec u t) as [->|Hne].
-      * exists 3%nat. cbn. rewrite upd_same. cbn. repeat split; try discriminate.
-        -- apply ts_committed.
-        -- intros _. exact Hl.
+      * exists 4%nat. cbn. rewrite upd_same. cbn. split; [apply ts_published|split; [|split; [|split]]]; try discriminate.
+        intros _. exact Hl.
       * eapply (other_ok c _ t u Hne); [cbn; apply upd_other; exact Hne | apply Hth | |]; cbn; auto.
         rewrite Hl. intro E. inversion E. exfalso. apply Hne. symmetry. assumption.
-    + cbn [Sched.shared cell hist]. rewrite map_app. cbn [map snd]. rewrite seq_result_snoc, <- Hcell, (H2 eq_refl). reflexivity.
-  - (* committed: OUnlock *)
+    + cbn [Sched.shared cell hist]. rewrite map_app. cbn [map snd]. rewrite seq_result_snoc, <- Hcell, Hloc. reflexivity.
+  - (* published: OUnlock *)
     cbn [sem]. assert (Hl : lock (Sched.shared c) = Some t) by (apply H1; discriminate).
     split; [|exact Hcell].
     intro u. destruct (Nat.eq_dec u t) as [->|Hne].
-    + exists 0%nat. cbn. rewrite upd_same. cbn. repeat split; try discriminate.
-      * apply ts_idle.
-      * intro E; exfalso; apply E; reflexivity.
+    + exists 0%nat. cbn. rewrite upd_same. cbn. split; [apply ts_idle|split; [|split; [|split]]]; try discriminate.
+      intro E; exfalso; apply E; reflexivity.
     + eapply (other_ok c _ t u Hne); [cbn; apply upd_other; exact Hne | apply Hth | |]; cbn.
       * discriminate.
       * rewrite Hl. intro E. inversion E. exfalso. apply Hne. symmetry. assumption.
@@ -113,7 +120,7 @@ Qed.
 Fixpoint pending (l : list op) : list stmt :=
   match l with
   | [] => []
-  | OCommit s :: r => s :: pending r
+  | OPublish s :: r => s :: pending r
   | _ :: r => pending r
   end.
 
@@ -138,23 +145,23 @@ Lemma step_invP : forall stmts t c, InvP stmts c -> InvP stmts (step_thread sem 
 Proof.
   intros stmts t c H. unfold step_thread.
   destruct (todo (threads c t)) as [|a rest] eqn:El; [exact H|].
+  assert (Hkeep : forall sh' l', hist sh' = hist (Sched.shared c) -> pending rest = pending (a :: rest) ->
+            InvP stmts {| Sched.shared := sh'; threads := upd (threads c) t {| todo := rest; loc := l' |} |}).
+  { intros sh' l' Hh Hp u. cbn [Sched.shared threads]. rewrite Hh. specialize (H u).
+    destruct (Nat.eq_dec u t) as [->|Hne].
+    - rewrite upd_same. cbn [todo]. rewrite Hp. rewrite El in H. exact H.
+    - rewrite upd_other by exact Hne. exact H. }
   destruct a; cbn [sem].
-  - intro u. cbn [Sched.shared hist threads]. specialize (H u). destruct (Nat.eq_dec u t) as [->|Hne].
-    + rewrite upd_same. cbn. rewrite El in H. exact H.
-    + rewrite upd_other by exact Hne. exact H.
-  - destruct (lock (Sched.shared c)); [exact H|].
-    intro u. cbn [Sched.shared hist threads]. specialize (H u). destruct (Nat.eq_dec u t) as [->|Hne].
-    + rewrite upd_same. cbn. rewrite El in H. exact H.
-    + rewrite upd_other by exact Hne. exact H.
+  - apply Hkeep; reflexivity.
+  - destruct (lock (Sched.shared c)); [exact H|]. apply Hkeep; reflexivity.
+  - apply Hkeep; reflexivity.
   - intro u. cbn [Sched.shared hist threads]. specialize (H u). rewrite committed_by_snoc.
     destruct (Nat.eq_dec u t) as [->|Hne].
     + rewrite upd_same, Nat.eqb_refl. cbn. rewrite El in H. cbn in H. rewrite <- app_assoc. exact H.
     + rewrite upd_other by exact Hne.
       assert (E : Nat.eqb t u = false) by (apply Nat.eqb_neq; intro; apply Hne; symmetry; assumption).
       rewrite E, app_nil_r. exact H.
-  - intro u. cbn [Sched.shared hist threads]. specialize (H u). destruct (Nat.eq_dec u t) as [->|Hne].
-    + rewrite upd_same. cbn. rewrite El in H. exact H.
-    + rewrite upd_other by exact Hne. exact H.
+  - apply Hkeep; reflexivity.
 Qed.
 
 Theorem hist_per_thread : forall o v0 stmts sched t,
@@ -220,7 +227,7 @@ Proof.
 Qed.
 
 (* ---- the pinned order loses an update (two increments) ---- *)
-Definition witness_old_sched : list nat := [0; 1; 0; 0; 0; 1; 1; 1]%nat.
+Definition witness_old_sched : list nat := [0; 1; 0; 0; 0; 0; 1; 1; 1; 1]%nat.
 
 Lemma old_order_loses_update :
   let c := arun witness_old_sched (init order_old 0 [[SAdd 1]; [SAdd 1]]) in
@@ -233,3 +240,13 @@ Example fixed_example :
   let c := arun (concat (repeat [0;1;2;2;1]%nat 20)) (init order_fixed 5 [[SAdd 1; SAdd 1]; [SAdd 1; SAdd 1]; [SAdd 1; SAdd 1]]) in
   done_upto 3 c = true /\ cell (Sched.shared c) = 11.
 Proof. vm_compute. split; reflexivity. Qed.
+
+
+(* the write guard dropped before the run is published: the next statement takes the lock and its snapshot in
+   the window and one of two increments is lost *)
+Definition witness_early_unlock_sched : list nat := [0; 0; 0; 0; 1; 1; 1; 0; 1; 1]%nat.
+Lemma early_unlock_loses_update :
+  let c := arun witness_early_unlock_sched (init order_early_unlock 0 [[SAdd 1]; [SAdd 1]]) in
+  done_upto 2 c = true /\ length (hist (Sched.shared c)) = 2%nat /\ cell (Sched.shared c) = 1 /\
+  cell (Sched.shared c) <> seq_result 0 (map snd (hist (Sched.shared c))).
+Proof. vm_compute. split; [reflexivity|split; [reflexivity|split; [reflexivity|discriminate]]]. Qed.
